@@ -3,7 +3,7 @@
 
     // C01 — everything else (parser recursion, VM operand stack discipline, filters taking &State, formatting) is
     // outside the verifiers' reach: BOUNDED native stand-in, panics caught.
-//# ob name=no_panic_corpus_native role=native_bounded fn=Environment::{add_template,compile_expression}+Template::render kind=bounded bound="(a) every source of length <= 4 tokens over a 17-token alphabet of syntax fragments (about 9*10^4 sources) loaded and rendered; (b) 150 expressions applying size/count/index taking filters, functions, operators and loop methods to boundary arguments {0, +-1, 2^31, 2^62, 2^63-1, 2^63, 2^64-1, -2^63, huge floats, empty / huge strings}; (c) moderately deep nesting (depth 100) of every recursive syntax form; debug profile with overflow checks" stmt="loading and rendering either succeeds or returns an error value; it never panics, aborts on arithmetic overflow, indexes out of bounds, unwraps None or requests an allocation whose size the template chose"
+//# ob name=no_panic_corpus_native role=native_bounded fn=Environment::{add_template,compile_expression}+Template::render kind=bounded bound="(a) every source of length <= 4 tokens over a 17-token alphabet of syntax fragments (about 9*10^4 sources) loaded and rendered; (b) 150 expressions applying size/count/index taking filters, functions, operators and loop methods to boundary arguments {0, +-1, 2^31, 2^62, 2^63-1, 2^63, 2^64-1, -2^63, huge floats, empty / huge strings}; (b1) every built-in filter and every built-in test (names taken from the engine's tables) applied to 20 boundary values with 0, 1 and 2 boundary arguments (> 10^5 expressions); (c) moderately deep nesting (depth 100) of every recursive syntax form; debug profile with overflow checks" stmt="loading and rendering either succeeds or returns an error value; it never panics, aborts on arithmetic overflow, indexes out of bounds, unwraps None or requests an allocation whose size the template chose"
     fn no_panic_corpus_native() {
         use crate::value::Value;
         let guard = |what: &str, f: &mut dyn FnMut()| {
@@ -62,6 +62,45 @@
             n += 1;
         }}}
         assert!(n > 3000, "{n}");
+        // (b1) every built-in filter and test (names read from the engine's own tables) applied to boundary values with
+        // 0, 1 and 2 boundary arguments (found on the unchanged tree: `1 is divisibleby(0)` panicked with a zero divisor)
+        {
+            let vals = ["0", "1", "-1", "2", "9223372036854775807", "9223372036854775808", "18446744073709551615", "-9223372036854775808",
+                        "170141183460469231731687303715884105727", "0.0", "-0.5", "1e300", "''", "'ab'", "none", "true", "[]", "[1, 2]", "{}", "{'a': 1}"];
+            let filters: Vec<String> = crate::defaults::get_builtin_filters().keys().map(|k| k.to_string()).collect();
+            let tests: Vec<String> = crate::defaults::get_builtin_tests().keys().map(|k| k.to_string()).collect();
+            assert!(filters.len() > 30 && tests.len() > 30);
+            let env = Environment::new();
+            let mut m = 0u64;
+            let mut run = |expr: String| {
+                guard(&expr, &mut || {
+                    if let Ok(e) = env.compile_expression(&expr) {
+                        if let Ok(v) = e.eval(()) { if v.len().map_or(true, |l| l < 100_000) { let _ = v.to_string().len(); } }
+                    }
+                });
+                m += 1;
+            };
+            // filters whose result size is their numeric argument allocate that much by definition (see DESIGN.md)
+            let sized = |f: &str| matches!(f, "indent" | "center" | "batch" | "slice" | "format" | "ljust" | "rjust" | "truncate");
+            for f in &filters {
+                for a in vals {
+                    run(format!("{a}|{f}"));
+                    for b in vals {
+                        if sized(f) && b.len() > 3 { continue; }
+                        run(format!("{a}|{f}({b})"));
+                        for c in ["0", "-1", "9223372036854775808", "'ab'", "none"] { if !sized(f) { run(format!("{a}|{f}({b}, {c})")); } }
+                    }
+                }
+            }
+            for t in &tests {
+                if !t.chars().all(|c| c.is_ascii_alphanumeric() || c == '_') { continue; }
+                for a in vals {
+                    run(format!("{a} is {t}"));
+                    for b in vals { run(format!("{a} is {t}({b})")); }
+                }
+            }
+            assert!(m > 100_000, "{m}");
+        }
         for t in ["{% for x in [1] %}{{ loop.cycle() }}{% endfor %}", "{% for x in [1, 2] %}{{ loop.cycle(1) }}{{ loop.changed() }}{{ loop.changed(x, x) }}{% endfor %}",
                   "{% for x in [] %}{% else %}{{ loop }}{% endfor %}", "{{ loop }}", "{% for x in 'abc' %}{{ loop.previtem }}{{ loop.nextitem }}{{ loop.revindex }}{% endfor %}",
                   "{% for a, b in [[1, 2], [3]] %}{{ a }}{% endfor %}", "{% for a, b in 5 %}{% endfor %}", "{{ namespace(a=1).b }}", "{% set ns = namespace() %}{% set ns.x = 1 %}{{ ns.x }}",
